@@ -198,6 +198,14 @@ def depth1():
     # boolean connectives / coalesce
     progs.append(Prog(A.And([col('b'), col('b2')]), ['b', 'b2'], 'And', 1))
     progs.append(Prog(A.Or([col('b'), col('b2')]), ['b', 'b2'], 'Or', 1))
+    # AND / OR accept operands of any type (truthiness) and announce bool: the VALUE must be a bool as well
+    for cname, (t, _) in UNIVERSE.items():
+        if t is bool or cname in SECOND.values() or t is Inv:      # truth value of an Inventory: open known finding
+            continue
+        for op in (A.And, A.Or):
+            progs.append(Prog(op([col(cname), col('b')]), [cname, 'b'], f'{op.__name__}[{tname(t)},bool]', 1))
+            progs.append(Prog(op([col('b'), col(cname)]), [cname, 'b'], f'{op.__name__}[bool,{tname(t)}]', 1))
+            progs.append(Prog(op([col(cname), C(True)]), [cname], f'{op.__name__}[{tname(t)},const]', 1))
     for t, names in TYPECOL.items():
         if len(names) >= 2:
             progs.append(Prog(F('coalesce', col(names[0]), col(names[1])), names[:2], f'coalesce[{tname(t)}]', 1))
